@@ -623,11 +623,9 @@ class CodeBuilder:
         else:
             config_cls = cls.__dict__.get("Config", BaseConfig)
         if not issubclass(config_cls, BaseConfig):
-            config_cls = type(
-                "Config",
-                (BaseConfig, config_cls),
-                {**BaseConfig.__dict__, **config_cls.__dict__},
-            )
+            # the plain class first: what it defines or inherits from its own
+            # bases wins, BaseConfig only supplies the remaining defaults
+            config_cls = type("Config", (config_cls, BaseConfig), {})
         return config_cls
 
     def get_discriminator(
